@@ -458,6 +458,29 @@ func (m *lfsModule) forwardToBackend(ctx context.Context, conn net.Conn, payload
 	return frame.Payload, nil
 }
 
+// lfsProduceAckError decodes the broker's reply to the envelope produce
+// request and returns an error unless the record was acknowledged: every
+// partition in the reply, and at least one, must carry error code 0.
+func lfsProduceAckError(resp []byte, version int16) error {
+	parsed, err := parseProduceResponse(resp, version)
+	if err != nil {
+		return err
+	}
+	acked := 0
+	for _, topic := range parsed.Topics {
+		for _, part := range topic.Partitions {
+			if part.ErrorCode != 0 {
+				return fmt.Errorf("broker rejected produce to %s[%d]: error code %d", topic.Topic, part.Partition, part.ErrorCode)
+			}
+			acked++
+		}
+	}
+	if acked == 0 {
+		return fmt.Errorf("broker reply acknowledges no partition")
+	}
+	return nil
+}
+
 func (m *lfsModule) trackOrphans(orphans []orphanInfo) {
 	if len(orphans) == 0 {
 		return
